@@ -406,4 +406,8 @@ def check(run, project):
     from ..report import RuleView
     from . import c09
     c09.check(RuleView(run, "S2", "P5"), project)
+    # P8 (= C09-S3): results of separate decodes and of stream decodes are comparable only if the stream picks the encrypted
+    # layout for a response exactly when the separate decode (told so by its caller) does: the predicate the stream asks
+    # answers for the command's own session area, with the response direction's bit
+    c09.check(RuleView(run, "S3", "P8"), project)
 
